@@ -329,9 +329,9 @@ def v7_selection(ctx):
     pairs = [(p, l) for p in (10, 20, 30) for l in (1, 2, 3)]
     n = 0
     bad = {}
-    for k in (1, 2, 3):
+    for k in ((1, 2, 3, 4) if ctx.tier == 'thorough' and ctx.cfg_name == 'dev' else (1, 2, 3)):
         for seq in itertools.permutations(pairs, k):
-            cands = [('ABC'[i], p, l) for i, (p, l) in enumerate(seq)]
+            cands = [('ABCD'[i], p, l) for i, (p, l) in enumerate(seq)]
             want = min(cands, key=lambda c: (c[1], -c[2]))
             n += 1
             try:
@@ -356,7 +356,7 @@ def v7_selection(ctx):
                 ctx.ok('V7', 'matches [%s] -> %s substituted for tokens %d..%d' % (desc, want[0], s, e), 'table', site=fl[0][1]['loc'], sample=(n in (1, 40, 300)))
     for kind, what in sorted(bad.items()):
         ctx.finding('V7', 'update_token_variables/selection/%s' % kind, what, site=fl[0][1]['loc'])
-    ctx.analysed('V7', '%d sequences of 1..3 candidate matches over 3 positions x 3 lengths; order-only premise checked in %d blocks of the search loop' % (n, len(inner['body'])))
+    ctx.analysed('V7', '%d sequences of 1..3 (thorough: 1..4) candidate matches over 3 positions x 3 lengths; order-only premise checked in %d blocks of the search loop' % (n, len(inner['body'])))
 
 
 RULES.append(('V7', v7_selection))
